@@ -8,6 +8,9 @@
 
   * a plain f-string `f'a{x}b'` (no conversion, no format spec, no braces in the literal parts) becomes `'a{}b'.format(x)`.
 
+  * an annotated assignment with a value (`x: int = e`, `self.n: int = 0`) becomes the plain assignment; parameter and return
+    annotations are irrelevant to every rule and are left as they are.
+
 Nothing else is touched.  Line numbers are kept."""
 import ast
 
@@ -49,6 +52,12 @@ class _Norm(ast.NodeTransformer):
             return node
         new = ast.Call(func=ast.Attribute(value=ast.Constant(value=fmt), attr="format", ctx=ast.Load()), args=args, keywords=[])
         return ast.copy_location(new, node)
+
+    def visit_AnnAssign(self, node):
+        self.generic_visit(node)
+        if node.value is None:
+            return node
+        return self.visit_Assign(ast.copy_location(ast.Assign(targets=[node.target], value=node.value), node))
 
     def visit_Assign(self, node):
         self.generic_visit(node)
